@@ -79,6 +79,20 @@ def leg_skeleton(progs, flavour, jobs=8):
             # mmap stores are invisible to strace; fallocate/mmap only appear on the real side when the
             # writer is mapped: the model prints fallocate too.  chmod / utimens are dropped by skeleton().
             real_c = [e for e in real if not e.startswith("mmap-write")]
+            # an index record must reach the bucket with ONE write(2) (C07: no splice under concurrency)
+            bw = [e for e in real_c if e.startswith("write ") and "/index-v5/" in e]
+            paths = {}
+            for e in bw:
+                paths.setdefault(e.split(" ")[1], []).append(int(e.split(" ")[2]))
+            split = {pth: ns for pth, ns in paths.items() if len(ns) > 1 and op.split(" ")[0] in
+                     ("write", "wcommit", "index_insert", "remove", "index_delete", "link_to", "lcommit")}
+            if split:
+                pth, ns = next(iter(split.items()))
+                f = Failure("record_split", i, f"{op[:60]}: one index record written with {len(ns)} write(2) calls {ns} ({flavour})",
+                            sig={"op": op.split(" ")[0], "binary": flavour, "record_bytes": sum(ns), "api": op.split(" ")[1]})
+                f.replay_text = p.text()
+                failures.append(f)
+                continue
             if real_c != model:
                 disagreements.append({"prog": p.name, "op_index": i, "op": op[:200], "real": real_c[:40], "model": model[:40],
                                       "ops": p.ops})
@@ -474,3 +488,52 @@ def leg_concurrent(r, rounds, flavours, procs=4, ops_per_proc=40):
         shutil.rmtree(scratch, ignore_errors=True)
     return {"failures": failures, "disagreements": [], "evaluations": evaluations, "distinct_nontrivial": len(kinds),
             "samples": samples, "concurrent_rounds": rounds}
+
+
+# ---------------------------------------------------------------------------------------------
+# flavour equivalence (C12): one program, four executions
+# ---------------------------------------------------------------------------------------------
+
+def leg_flavours(progs, flavours, jobs=16):
+    """Each program is executed with all flavour tokens set to `s` and to `a`, on every binary
+    (async-std, tokio): the canonical result streams must be equal step by step.  Mixed form: the
+    first half of the program through one API, the second half through the other."""
+    from . import props as P
+    failures, samples = [], []
+    variants = []
+    for p in progs:
+        half = len(p.ops) // 2
+        forms = {
+            "sync": P.with_flavour(p.ops, "s"),
+            "async": P.with_flavour(p.ops, "a"),
+            "mixed-sa": P.with_flavour(p.ops[:half], "s") + P.with_flavour(p.ops[half:], "a"),
+            "mixed-as": P.with_flavour(p.ops[:half], "a") + P.with_flavour(p.ops[half:], "s"),
+        }
+        for name, ops in forms.items():
+            for fl in flavours:
+                variants.append((p, name, fl, ops))
+    with ThreadPoolExecutor(max_workers=jobs) as ex:
+        outs = list(ex.map(lambda v: E.run_impl(v[2], "\n".join(v[3]) + "\n")[0], variants))
+    by_prog = {}
+    for (p, name, fl, ops), out in zip(variants, outs):
+        by_prog.setdefault(id(p), []).append((p, name, fl, ops, out))
+    evaluations, kinds = 0, set()
+    for runs in by_prog.values():
+        p0, n0, f0, ops0, out0 = runs[0]
+        ref = [P.canon_for_flavour_compare(o, l) for o, l in zip(ops0, out0)]
+        for p, name, fl, ops, out in runs[1:]:
+            evaluations += 1
+            cur = [P.canon_for_flavour_compare(o, l) for o, l in zip(ops, out)]
+            for i, (a, b) in enumerate(zip(ref, cur)):
+                if a != b:
+                    opn = ops[i].split(" ")[0]
+                    f = Failure("flavours_differ", i, f"{n0}/{f0} vs {name}/{fl} at `{ops[i][:70]}`: {a[:60]} | {b[:60]}",
+                                sig={"op": opn, "form": name, "binary": fl})
+                    f.replay_text = f"# {n0} on {f0}:\n" + "\n".join(ops0) + f"\n# {name} on {fl}:\n" + "\n".join(ops) + "\n"
+                    failures.append(f)
+                    break
+            kinds.add((name, fl, tuple(E.rclass(l) for l in out[:6])))
+        if len(samples) < 2:
+            samples.append({"forms": [f"{n}/{fl}" for _, n, fl, _, _ in runs], "ops": ops0[:5], "results": out0[:5]})
+    return {"failures": failures, "disagreements": [], "evaluations": evaluations, "distinct_nontrivial": len(kinds),
+            "samples": samples, "flavour_variants": len(variants)}
